@@ -80,6 +80,7 @@ impl io::Read for SimStream {
         // HttpConnection never uses Read::read; count it as a receive so that the
         // "one receive per call" oracle would notice if it started to.
         simkernel::heartbeat::beat();
+        simkernel::rawsys::clock::stream_call();
         let mut s = self.sh.borrow_mut();
         s.calls_in_op += 1;
         if s.calls_in_op > LIVELOCK_CALLS {
@@ -94,6 +95,7 @@ impl io::Read for SimStream {
 impl io::Write for SimStream {
     fn write(&mut self, buf: &[u8]) -> io::Result<usize> {
         simkernel::heartbeat::beat();
+        simkernel::rawsys::clock::stream_call();
         let mut s = self.sh.borrow_mut();
         s.calls_in_op += 1;
         if s.calls_in_op > LIVELOCK_CALLS {
@@ -142,6 +144,7 @@ impl ScmSocket for SimStream {
         fds: &mut [RawFd],
     ) -> errno::Result<(usize, usize)> {
         simkernel::heartbeat::beat();
+        simkernel::rawsys::clock::stream_call();
         let mut s = self.sh.borrow_mut();
         s.calls_in_op += 1;
         if s.calls_in_op > LIVELOCK_CALLS {
